@@ -95,6 +95,18 @@ var (
 func servers() []*rsrv {
 	srvOnce.Do(func() {
 		shard, _ := strconv.Atoi(os.Getenv("VERIF_SHARD"))
+		if only := kit.GetEnv().Only; only != "" {
+			// replay of one case: use the addresses of the shard the case ran on
+			// (index mod the shard count of props/C15.json: 8 quick, 16 thorough)
+			if i := strings.LastIndex(only, "/"); i >= 0 {
+				if idx, err := strconv.Atoi(only[i+1:]); err == nil {
+					shard = idx % 8
+					if kit.Thorough() {
+						shard = idx % 16
+					}
+				}
+			}
+		}
 		for i := 0; i < nServers; i++ {
 			s := &rsrv{mr: miniredis.NewMiniRedis(), name: "r" + strconv.Itoa(i), seen: map[string]int{}}
 			if err := s.mr.StartAddr(fmt.Sprintf("127.15.%d.%d:6379", shard%250, i+1)); err != nil {
@@ -292,38 +304,64 @@ func (cr cacheRouter) crossCheck(c *kit.Case, keys []string, owner []int) (strin
 
 type kvRouter struct{ s kv.Store }
 
-var kvOps = []string{"Set", "Get", "Exists", "Incr", "Hset", "Sadd", "Llen", "Ttl", "Del", "Setnx", "Hget", "Zadd"}
+// one single-key command per probe key (key i always gets command i mod len, so the redis
+// type of a key never changes); redis.Nil (empty list / missing field) is a normal answer
+type kvOp struct {
+	name string
+	fn   func(s kv.Store, k string) error
+}
+
+func e1[T any](_ T, err error) error { return err }
+
+var kvOps = []kvOp{
+	{"Set", func(s kv.Store, k string) error { return s.Set(k, "v") }},
+	{"Get", func(s kv.Store, k string) error { return e1(s.Get(k)) }},
+	{"Exists", func(s kv.Store, k string) error { return e1(s.Exists(k)) }},
+	{"Incr", func(s kv.Store, k string) error { return e1(s.Incr(k)) }},
+	{"Hset", func(s kv.Store, k string) error { return s.Hset(k, "f", "v") }},
+	{"Sadd", func(s kv.Store, k string) error { return e1(s.Sadd(k, "m")) }},
+	{"Llen", func(s kv.Store, k string) error { return e1(s.Llen(k)) }},
+	{"Ttl", func(s kv.Store, k string) error { return e1(s.Ttl(k)) }},
+	{"Del", func(s kv.Store, k string) error { return e1(s.Del(k)) }},
+	{"Setnx", func(s kv.Store, k string) error { return e1(s.Setnx(k, "v")) }},
+	{"Hget", func(s kv.Store, k string) error { return e1(s.Hget(k, "f")) }},
+	{"Zadd", func(s kv.Store, k string) error { return e1(s.Zadd(k, 1, "m")) }},
+	{"Decr", func(s kv.Store, k string) error { return e1(s.Decr(k)) }},
+	{"Incrby", func(s kv.Store, k string) error { return e1(s.Incrby(k, 3)) }},
+	{"Decrby", func(s kv.Store, k string) error { return e1(s.Decrby(k, 2)) }},
+	{"Expire", func(s kv.Store, k string) error { return s.Expire(k, 1000) }},
+	{"Setex", func(s kv.Store, k string) error { return s.Setex(k, "v", 1000) }},
+	{"SetnxEx", func(s kv.Store, k string) error { return e1(s.SetnxEx(k, "v", 1000)) }},
+	{"GetSet", func(s kv.Store, k string) error { return e1(s.GetSet(k, "w")) }},
+	{"Hexists", func(s kv.Store, k string) error { return e1(s.Hexists(k, "f")) }},
+	{"Hgetall", func(s kv.Store, k string) error { return e1(s.Hgetall(k)) }},
+	{"Hincrby", func(s kv.Store, k string) error { return e1(s.Hincrby(k, "n", 1)) }},
+	{"Hlen", func(s kv.Store, k string) error { return e1(s.Hlen(k)) }},
+	{"Hsetnx", func(s kv.Store, k string) error { return e1(s.Hsetnx(k, "f", "v")) }},
+	{"Hmset", func(s kv.Store, k string) error { return s.Hmset(k, map[string]string{"a": "1"}) }},
+	{"Hdel", func(s kv.Store, k string) error { return e1(s.Hdel(k, "f")) }},
+	{"Lpush", func(s kv.Store, k string) error { return e1(s.Lpush(k, "x")) }},
+	{"Rpush", func(s kv.Store, k string) error { return e1(s.Rpush(k, "x")) }},
+	{"Lrange", func(s kv.Store, k string) error { return e1(s.Lrange(k, 0, -1)) }},
+	{"Lpop", func(s kv.Store, k string) error { return e1(s.Lpop(k)) }},
+	{"Scard", func(s kv.Store, k string) error { return e1(s.Scard(k)) }},
+	{"Sismember", func(s kv.Store, k string) error { return e1(s.Sismember(k, "m")) }},
+	{"Smembers", func(s kv.Store, k string) error { return e1(s.Smembers(k)) }},
+	{"Srem", func(s kv.Store, k string) error { return e1(s.Srem(k, "m")) }},
+	{"Pfadd", func(s kv.Store, k string) error { return e1(s.Pfadd(k, "e")) }},
+	{"Pfcount", func(s kv.Store, k string) error { return e1(s.Pfcount(k)) }},
+	{"Zcard", func(s kv.Store, k string) error { return e1(s.Zcard(k)) }},
+	{"Zincrby", func(s kv.Store, k string) error { return e1(s.Zincrby(k, 2, "m")) }},
+	{"Zrange", func(s kv.Store, k string) error { return e1(s.Zrange(k, 0, -1)) }},
+	{"Zrem", func(s kv.Store, k string) error { return e1(s.Zrem(k, "m")) }},
+	{"Zcount", func(s kv.Store, k string) error { return e1(s.Zcount(k, 0, 10)) }},
+	{"Eval", func(s kv.Store, k string) error { return e1(s.Eval("return redis.call('EXISTS', KEYS[1])", k)) }},
+}
 
 func (kr kvRouter) op(i int, k string) error {
-	var err error
-	switch kvOps[i%len(kvOps)] {
-	case "Set":
-		err = kr.s.Set(k, "v")
-	case "Get":
-		_, err = kr.s.Get(k)
-	case "Exists":
-		_, err = kr.s.Exists(k)
-	case "Incr":
-		_, err = kr.s.Incr(k)
-	case "Hset":
-		err = kr.s.Hset(k, "f", "v")
-	case "Sadd":
-		_, err = kr.s.Sadd(k, "m")
-	case "Llen":
-		_, err = kr.s.Llen(k)
-	case "Ttl":
-		_, err = kr.s.Ttl(k)
-	case "Del":
-		_, err = kr.s.Del(k)
-	case "Setnx":
-		_, err = kr.s.Setnx(k, "v")
-	case "Hget":
-		_, err = kr.s.Hget(k, "f")
-		if errors.Is(err, redis.Nil) {
-			err = nil
-		}
-	default:
-		_, err = kr.s.Zadd(k, 1, "m")
+	err := kvOps[i%len(kvOps)].fn(kr.s, k)
+	if errors.Is(err, redis.Nil) {
+		err = nil
 	}
 	return err
 }
@@ -337,7 +375,7 @@ func (kr kvRouter) route(keys []string) ([]int, string, bool) {
 				missing[k] = true
 				continue
 			}
-			return nil, kvOps[i%len(kvOps)] + " returned " + firstN(err.Error(), 200), false
+			return nil, kvOps[i%len(kvOps)].name + " returned " + firstN(err.Error(), 200), false
 		}
 	}
 	return collect(keys, missing)
@@ -361,7 +399,7 @@ func (kr kvRouter) crossCheck(c *kit.Case, keys []string, owner []int) (string, 
 		}
 		c.Obs("cluster_cross_operation_routes", 1)
 		if o[0] != owner[i] {
-			return fmt.Sprintf("Persist(%q) went to r%d, %s of the same key on the same store went to r%d", keys[i], o[0], kvOps[i%len(kvOps)], owner[i]), "", true
+			return fmt.Sprintf("Persist(%q) went to r%d, %s of the same key on the same store went to r%d", keys[i], o[0], kvOps[i%len(kvOps)].name, owner[i]), "", true
 		}
 	}
 	return "", "", true
